@@ -1,42 +1,34 @@
 #!/bin/bash
-# Full pass over every seeded change (final state of the checks).  Lanes keep the checks that regenerate coq/Gen serial.
+# Full pass over every seeded change (final state of the checks).  Each change is run against its own property's check,
+# harmless rewrites (-H?) also against the neighbouring checks.  Checks that regenerate coq/Gen (C03, C05, C12) run in ONE
+# serial lane over all changes — two different trees must never regenerate coq/Gen at the same time —, the others in
+# $LANES parallel lanes (default 4).  Results: seeded/<name>/result.txt; cross.txt (other properties' checks) is kept.
 cd "$(dirname "$0")/.."
-ids_for() {
-  n=$1; p=${n%%-*}; s=${n##*-}
-  case "$s" in
-    HA|HB)
-      case "$p" in
-        C01|C04) echo "C01 C02 C03 C04 C05";;
-        C05) echo "C01 C03 C05 C06 C08";;
-        C06|C07) echo "C05 C06 C07 C08";;
-        C08|C13|C16) echo "C08 C13 C16";;
-        C10|C11) echo "C10 C11 C12";;
-        C12) echo "C11 C12";;
-        C14|C15) echo "C13 C14 C15";;
-        *) echo "$p";;
-      esac;;
-    *)
-      case "$n" in
-        C02-D) echo "C02 C04";;
-        C13-D) echo "C13 C14";;
-        C06-E) echo "C06 C05";;
-        C05-E) echo "C05 C01 C03";;
-        *) echo "$p";;
-      esac;;
-  esac
-}
-lane() {
-  for n in "$@"; do
-    ids=$(ids_for $n)
-    tier=quick; case "$n" in C04-E|C13-F) tier=thorough;; esac
-    TIER=$tier tools/seeded_run.sh $n $ids > .cache/full_$n.log 2>&1
-  done
-}
-all=$(ls -d seeded/*/ | xargs -n1 basename)
-gen=$(echo "$all" | grep -E "^(C03|C05|C06|C12)-" | tr '\n' ' ')
-rest=$(echo "$all" | grep -vE "^(C03|C05|C06|C12)-")
-l1=$(echo "$rest" | awk 'NR%3==0' | tr '\n' ' '); l2=$(echo "$rest" | awk 'NR%3==1' | tr '\n' ' '); l3=$(echo "$rest" | awk 'NR%3==2' | tr '\n' ' ')
-lane $gen & lane $l1 & lane $l2 & lane $l3 &
+LANES=${LANES:-4}
+neighbours() { case "$1" in
+    C01|C04) echo "C01 C02 C03 C04 C05";; C02|C03) echo "C01 C02 C03 C05";; C05) echo "C01 C03 C05 C06 C08";;
+    C06|C07) echo "C05 C06 C07 C08";; C08|C13|C16) echo "C08 C13 C16";; C09) echo "C09 C08";; C10|C11) echo "C10 C11 C12";;
+    C12) echo "C11 C12";; C14|C15) echo "C13 C14 C15";; C17) echo "C17 C06";; *) echo "$1";; esac; }
+ids_for() { n=$1; p=${n%%-*}; s=${n##*-}
+  case "$s" in H?) neighbours $p;; *) case "$n" in C02-D) echo "C02 C04";; C13-D) echo "C13 C14";; C06-E) echo "C06 C05";; C05-E) echo "C05 C01 C03";; *) echo "$p";; esac;; esac; }
+tier_for() { case "$1" in C04-E|C13-F) echo thorough;; *) echo quick;; esac; }
+names=$(ls -d seeded/*/ | xargs -n1 basename)
+[ -n "$ONLY" ] && names=$(echo "$names" | grep -E "$ONLY")
+cross_ids() { [ -f seeded/$1/cross.txt ] && grep " tier=" seeded/$1/cross.txt | cut -d" " -f1 | sort -u | tr '\n' ' '; }
+genlane() { for n in $names; do g=""; for c in $(ids_for $n); do case $c in C03|C05|C12) g="$g $c";; esac; done
+    [ -n "$g" ] && TIER=$(tier_for $n) OUT=result_gen.txt tools/seeded_run.sh $n $g > .cache/full_${n}_gen.log 2>&1
+    x=""; for c in $(cross_ids $n); do case $c in C03|C05|C12) x="$x $c";; esac; done
+    [ -n "$x" ] && OUT=cross_gen.txt tools/seeded_run.sh $n $x > .cache/full_${n}_xgen.log 2>&1; done; }
+otherlane() { k=$1; i=0; for n in $names; do i=$((i+1)); [ $((i%LANES)) = $k ] || continue; o=""; for c in $(ids_for $n); do case $c in C03|C05|C12) ;; *) o="$o $c";; esac; done
+    [ -n "$o" ] && TIER=$(tier_for $n) OUT=result_other.txt tools/seeded_run.sh $n $o > .cache/full_${n}_other.log 2>&1
+    x=""; for c in $(cross_ids $n); do case $c in C03|C05|C12) ;; *) x="$x $c";; esac; done
+    [ -n "$x" ] && OUT=cross_other.txt tools/seeded_run.sh $n $x > .cache/full_${n}_xother.log 2>&1; done; }
+genlane &
+for k in $(seq 0 $((LANES-1))); do otherlane $k & done
 wait
+for n in $names; do if [ -f seeded/$n/result_gen.txt ] || [ -f seeded/$n/result_other.txt ]; then
+  cat seeded/$n/result_gen.txt seeded/$n/result_other.txt 2>/dev/null > seeded/$n/result.txt; rm -f seeded/$n/result_gen.txt seeded/$n/result_other.txt; fi; done
+for n in $names; do if [ -f seeded/$n/cross_gen.txt ] || [ -f seeded/$n/cross_other.txt ]; then
+  cat seeded/$n/cross_gen.txt seeded/$n/cross_other.txt 2>/dev/null > seeded/$n/cross.txt; rm -f seeded/$n/cross_gen.txt seeded/$n/cross_other.txt; fi; done
 python3 tools/design_tables.py
 echo done
